@@ -26,9 +26,9 @@ type captured struct {
 // injection: while the K-th compaction file-system call of the run is being made, a burst of further requests
 // arrives and is written to the log (the thread making the call waits until the log queue is flushed).
 type captureInject struct {
-	AtPoint int     // index among the compaction points of the run
+	AtPoint int // index among the compaction points of the run
 	Burst   []SeqOp
-	OpIndex int     // out: index of the history op during which the burst was injected (-1: never reached)
+	OpIndex int // out: index of the history op during which the burst was injected (-1: never reached)
 }
 
 func runCapture(cfg hapi.Config, hist []SeqOp, everyPoint bool) *captured {
